@@ -20,6 +20,9 @@ pub fn sem_table() -> OpTable {
     for (n, _) in handlers::POSTFIX_OPS {
         t.postfix.insert(n.to_string());
     }
+    for (n, _) in handlers::SETTER_OPS {
+        t.infix.insert(n.to_string(), (20, true));
+    }
     t
 }
 
